@@ -275,6 +275,17 @@ class PosIter:
         return None
 
 
+def bound_value(fa, e, at, depth=8):
+    """(expression, node id) a local stands for when it was bound exactly once, by a plain assignment, on every
+    path reaching `at` (followed through chains of such locals); anything else stands for itself."""
+    while isinstance(e, ast.Name) and depth > 0:
+        ds = fa.df.reaching(at, e.id)
+        if len(ds) != 1 or ds[0].kind != "assign" or ds[0].value is None:
+            break
+        e, at, depth = ds[0].value, ds[0].node, depth - 1
+    return e, at
+
+
 def pos_iter(seqs, target, it, at, loop_ast=None):
     """PosIter for `for target in it` / a comprehension generator, or None when the iteration is not "once per
     input position, in input order"."""
@@ -284,10 +295,13 @@ def pos_iter(seqs, target, it, at, loop_ast=None):
         a = it.args
         if len(a) == 2 and isinstance(a[0], ast.Constant) and a[0].value == 0:
             a = a[1:]
-        if len(a) == 1 and isinstance(a[0], ast.Call) and A.call_attr(a[0]) == "len" and len(a[0].args) == 1 \
-                and seqs.role(a[0].args[0], at) and isinstance(target, ast.Name):
-            p.pos = target.id
-            return p
+        if len(a) == 1 and isinstance(target, ast.Name):
+            # the bound may be held in a local (`n = len(xs)` ... `range(n)`): it is the length the list had there
+            n, n_at = bound_value(seqs.fa, a[0], at)
+            if isinstance(n, ast.Call) and A.call_attr(n) == "len" and isinstance(n.func, ast.Name) and len(n.args) == 1 and not n.keywords \
+                    and seqs.role(n.args[0], n_at):
+                p.pos = target.id
+                return p
         return None
     if isinstance(it, ast.Call) and A.call_attr(it) == "enumerate" and isinstance(it.func, ast.Name) and it.args:
         start = A.arg_or_kw(it, 1, "start")
@@ -482,14 +496,14 @@ def _index_is_input_position(fa, seqs, loops, idx_expr, stmt):
     return False
 
 
-def _check_index_fills(ck, fa, seqs, loops, R, result_name, tag):
+def _check_index_fills(ck, fa, seqs, loops, R, result_name, tag, also_ok=None):
     fills = []
     for st in fa.stmts(ast.Assign):
         for t in st.targets:
             if isinstance(t, ast.Subscript) and isinstance(t.value, ast.Name) and t.value.id == result_name and fa.nodes(st):
                 fills.append((st, t.slice))
     for (st, idx) in fills:
-        ok = _index_is_input_position(fa, seqs, loops, idx, st)
+        ok = _index_is_input_position(fa, seqs, loops, idx, st) or (also_ok is not None and also_ok(st, idx))
         ck.ob(R, fa.key(st, tag + "-slot-index"), ok, "the slot index is the element's position in the input" if ok else
               "`%s` fills slot `%s`, which is not the element's position in the input list (it counts another sequence): results are "
               "attributed to the wrong calls" % (A.short(st, 50), A.norm(idx)), fa.where(st))
@@ -606,6 +620,83 @@ def merge_call_role(seqs, e, at):
     return None
 
 
+class GapSeqs(Seqs):
+    """Sequences that have one element per cache MISS, in input order: 'misses' = the list of the input positions
+    at which the cache had no answer (ascending), 'store' = what the metadata source answered when asked for exactly
+    the input elements at those positions, in that order."""
+
+    def __init__(self, base, is_source):
+        Seqs.__init__(self, base.fa, None, self._call_role)
+        self.base = base
+        self.is_source = is_source
+
+    def miss_positions(self, e, at):
+        """Is `e` a list `[p for p in <positions of the input> if <the cache's answer at p is absent>]`, bound once
+        and never edited afterwards?"""
+        fa = self.fa
+        if not isinstance(e, ast.Name) or e.id in fa.df.params or len(all_defs(fa, e.id)) != 1:
+            return False
+        if any(A.dotted(A.call_recv(c)) == e.id and A.call_attr(c) in MUTATORS + ("append",) for c in fa.calls()):
+            return False
+        if any(isinstance(t, ast.Subscript) and A.dotted(t.value) == e.id for st in fa.stmts((ast.Assign, ast.AugAssign, ast.Delete))
+               for t in (st.targets if isinstance(st, (ast.Assign, ast.Delete)) else [st.target])):
+            return False
+        v, vat = bound_value(fa, e, at)
+        if not (isinstance(v, ast.ListComp) and len(v.generators) == 1 and len(v.generators[0].ifs) == 1):
+            return False
+        g = v.generators[0]
+        p = pos_iter(self.base, g.target, g.iter, vat)
+        if p is None or p.pos is None or A.norm(v.elt) != p.pos:
+            return False
+        facts = ast_atoms(g.ifs[0], True)
+        return len(facts) == 1 and ((facts[0][0] == "none" and facts[0][2]) or (facts[0][0] == "truth" and not facts[0][2])) \
+            and p.elem_role(self.base, facts[0][1], vat) == "cache"
+
+    def _role(self, e, at, _seen):
+        if self.miss_positions(self.unwrap(e), at):
+            return "misses"
+        return Seqs._role(self, e, at, _seen)
+
+    @staticmethod
+    def _call_role(self, e, at):
+        if not (isinstance(e, ast.Call) and self.is_source(e) and len(e.args) == 1 and not e.keywords):
+            return None
+        elts = per_element(self, e.args[0], at)
+        if elts and all(isinstance(x, ast.Subscript) and self.base.role(x.value, n) == "input" and p.elem_role(self, x.slice, n) == "misses" for (x, n, p) in elts):
+            return "store"
+        return None
+
+
+def _fills_gap(gm, seqs, gaps, res_name, st, idx):
+    """`results[idx] = value` in the form "start from the cache's answers, then fill each gap": the list starts with
+    one slot per input position, the statement runs exactly once per iteration of a loop over the miss positions, `idx`
+    is that iteration's miss position and `value` the store's answer for it."""
+    lp = gm.enclosing(st, ast.For)
+    if lp is None or gm.enclosing(lp, (ast.For, ast.While)) is not None or not gm.nodes(lp) or not gm.nodes(st):
+        return False
+    p = pos_iter(gaps, lp.target, lp.iter, gm.nodes(lp)[0], lp)
+    at = gm.nodes(st)[0]
+    if p is None or p.elem_role(gaps, idx, at) != "misses" or p.elem_role(gaps, st.value, at) != "store":
+        return False
+    heads = heads_of(gm, lp)
+    inits = [d for h in heads for d in gm.df.reaching(h, res_name) if not (d.stmt is not None and gm.inside(d.stmt, lp))]
+    if not inits or not all(d.kind == "assign" and d.value is not None and seqs.role(d.value, d.node) in ("cache", "aligned") for d in inits):
+        return False
+    for d in inits:
+        if seqs.role(d.value, d.node) == "aligned":
+            elts = per_element(seqs, d.value, d.node)
+            if not elts or not all(q.elem_role(seqs, x, n) == "cache" for (x, n, q) in elts):
+                return False
+    fills = [s for s in gm.stmts(ast.Assign) if gm.inside(s, lp) and gm.nodes(s)
+             and any(isinstance(t, ast.Subscript) and A.dotted(t.value) == res_name for t in s.targets)]
+    fill_nodes = gm.nodes_all(fills)
+    _skip, twice = iteration_counts(gm, heads, fill_nodes)
+    # a gap may be left as it is only when the store's answer for it is None too (the slot holds the cache's None)
+    nothing = edges_implying(gm, lambda k, e, b, n: k == "none" and b and p.elem_role(gaps, e, n) == "store")
+    skip = set(heads) & gm.cfg.reach(body_starts(gm, heads), removed=set(fill_nodes), edge_ok=not_edges(nothing))
+    return not skip and not twice
+
+
 def _check_merge(ck, R1):
     """The cache/store merge of StorageBackendBase.get_mementos."""
     gm = FA(ck, "storage_base.StorageBackendBase.get_mementos")
@@ -621,7 +712,8 @@ def _check_merge(ck, R1):
         return bool(lv) and all(x in qcalls for (x, _n) in lv)
 
     ploops = position_loops(gm, seqs)
-    gfills = _check_index_fills(ck, gm, seqs, ploops, R1, RESG, "merge")
+    gaps = GapSeqs(seqs, lambda c: c in qcalls)
+    gfills = _check_index_fills(ck, gm, seqs, ploops, R1, RESG, "merge", also_ok=lambda st, idx: _fills_gap(gm, seqs, gaps, RESG, st, idx))
     if gfills:
         return
     mloops = result_loops(gm, ploops, RESG)
